@@ -306,10 +306,14 @@ class Evaluator:
             if e.id == "itertools":
                 return _itertools
             raise Unsupported(f"name {e.id} in {fi.fq}")
-        if isinstance(e, ast.Tuple):
-            return tuple(self.expr(x, env, fi) for x in e.elts)
-        if isinstance(e, ast.List):
-            return [self.expr(x, env, fi) for x in e.elts]
+        if isinstance(e, (ast.Tuple, ast.List)):
+            out = []
+            for x in e.elts:
+                if isinstance(x, ast.Starred):
+                    out.extend(self.expr(x.value, env, fi))
+                else:
+                    out.append(self.expr(x, env, fi))
+            return tuple(out) if isinstance(e, ast.Tuple) else out
         if isinstance(e, ast.Set):
             return frozenset(self.expr(x, env, fi) for x in e.elts)
         if isinstance(e, ast.BinOp):
@@ -455,8 +459,10 @@ class Evaluator:
             return getattr(v, attr)
         if isinstance(v, Obj) and attr == "__class__":
             return v.cls
-        if v is _itertools and attr in ("product",):
+        if v is _itertools and not attr.startswith("_"):
             return getattr(v, attr)
+        if getattr(v, "__module__", None) == "itertools" and not attr.startswith("_"):
+            return getattr(v, attr)  # e.g. itertools.chain.from_iterable
         raise Unsupported(f"attribute .{attr} on {type(v).__name__} in {fi.fq}")
 
     def callexpr(self, e, env, fi):
@@ -488,6 +494,15 @@ class Evaluator:
             if n == "bool":
                 return self.truth(args[0])
             if n == "isinstance":
+                ts = args[1] if isinstance(args[1], tuple) else (args[1],)
+                repo = [t for t in ts if isinstance(t, ClassInfo)]
+                if repo:
+                    if isinstance(args[0], Obj) and any(t in self.prog.mro(args[0].cls) for t in repo):
+                        return True
+                    rest = tuple(t for t in ts if not isinstance(t, ClassInfo))
+                    return self.isinstance_fn(args[0], rest) if rest and not isinstance(args[0], Obj) else False
+                if isinstance(args[0], Obj):
+                    return False
                 return self.isinstance_fn(args[0], args[1])
             if n == "reversed":
                 return list(reversed(list(args[0])))
